@@ -12,7 +12,7 @@ import logging
 
 import kopf
 import vkopf
-from vkopf.driver_api import Ob, split
+from vkopf.driver_api import Ob, split, sample
 from vkopf.symloop import SymLoop, Deadlock, Diverged, Livelock, cancel_all_others
 from vkopf.world import World, base_body, FIN, LHC, PLURAL, make_resource
 
@@ -450,8 +450,8 @@ def obligations():
             obs.append(Ob('h_history', {'kind': 'timer', 'n': 1, 'timer_kw': kw, 'gap_max': 8, 'pin': {'s0': a}}, tiers=('quick',),
                           timeout=900, path_timeout=200))
     obs += split(Ob('h_history', {'kind': 'daemon', 'n': 2}, tiers=('thorough',), timeout=1800, path_timeout=200), s0=safe, s1=safe)
-    obs += split(Ob('h_history', {'kind': 'daemon', 'n': 3}, tiers=('thorough',), timeout=3400, path_timeout=200), s0=safe, s1=safe)
+    obs += sample(Ob('h_history', {'kind': 'daemon', 'n': 3}, tiers=('thorough',), timeout=1800, path_timeout=200), 32, seed=91, s0=safe, s1=safe)
     for kw in ({'interval': 3}, {'idle': 4}, {'interval': 3, 'idle': 4}):
-        obs += split(Ob('h_history', {'kind': 'timer', 'n': 2, 'timer_kw': kw, 'gap_max': 12}, tiers=('thorough',), timeout=3000, path_timeout=200),
-                     s0=safe, s1=safe)
+        obs += sample(Ob('h_history', {'kind': 'timer', 'n': 2, 'timer_kw': kw, 'gap_max': 12}, tiers=('thorough',), timeout=1800, path_timeout=200),
+                      12, seed=92 + len(kw) + kw.get('interval', 0), s0=safe, s1=safe)
     return obs
